@@ -346,7 +346,7 @@ func (vc *VC) wfFacts(term string, t types.Type, depth int) []string {
 	case *types.Slice:
 		return []string{fmt.Sprintf("(and (>= (sptr %s) 0) (>= (slen %s) 0) (<= (slen %s) (scap %s)) (<= (scap %s) 9223372036854775807) (=> (= (sptr %s) 0) (= (scap %s) 0)))", term, term, term, term, term, term, term)}
 	case *types.Interface:
-		return []string{"(>= (atag " + term + ") 0)", fmt.Sprintf("(=> (= (atag %s) 0) (= %s nil_any))", term, term)}
+		return []string{"(wf_any " + term + ")"}
 	case *types.Struct:
 		si := vc.u.structOf(t)
 		var out []string
@@ -839,7 +839,7 @@ func (vc *VC) execIndexAddr(fr *Frame, st *State, x *ssa.IndexAddr) {
 	switch bt := types.Unalias(base.T).Underlying().(type) {
 	case *types.Slice:
 		vc.safety(fr, st, "index", fmt.Sprintf("(and (<= 0 %s) (< %s (slen %s)))", idx.S, idx.S, base.S), x.Pos(), x.X.Name()+"["+x.Index.Name()+"]")
-		addr := vc.define("ea", "Int", "(+ (sptr "+base.S+") "+idx.S+")")
+		addr := vc.define("ea", "Int", "(idx (sptr "+base.S+") "+idx.S+")")
 		fr.regs[x] = &Val{T: x.Type(), S: addr}
 		_ = bt
 	case *types.Pointer:
@@ -1104,6 +1104,9 @@ func (vc *VC) execTypeAssert(fr *Frame, st *State, x *ssa.TypeAssert) {
 		tag := vc.u.tagOf(at)
 		ok = fmt.Sprintf("(= (atag %s) %d)", v.S, tag)
 		res = vc.unbox(st, v.S, at)
+		if vc.ifaceRepr(at) == "bool" {
+			vc.assume(implies(ok, fmt.Sprintf("(or (= (anum %s) 0) (= (anum %s) 1))", v.S, v.S)))
+		}
 		if x.CommaOk {
 			res = &Val{T: at, S: vc.define("ta", vc.u.sortOf(at), ite(ok, res.S, vc.u.zero(at)))}
 		}
